@@ -110,7 +110,7 @@ def run(ck):
     # ---- 5: increment_sub_id fails loudly ---------------------------------------------------------------------
     isi = ck.body("5", "TokenInner::increment_sub_id")
     ca = T.calls(isi, name="checked_add")
-    rets = [(i, st) for i, j, st in isi.statements() if st["s"] == "assign" and st["pl"]["l"] == 0 and st["rv"]["r"] == "agg" and not isi.is_cleanup(i)]
+    rets = [(i, st) for i, j, st in isi.statements() if st["s"] == "assign" and st["pl"]["l"] in T.ret_locals(isi) and st["rv"]["r"] == "agg" and not isi.is_cleanup(i)]
     ok5 = False
     why = "no checked_add"
     if ca and rets:
